@@ -69,6 +69,9 @@ structure Line where
   textEmpty : Bool
   /-- the line is terminated by CR LF (the reader does not distinguish; `end_of_line = ~r"\r?\n"`) -/
   crlf : Bool
+  /-- raw line breaks inside string literals of the statement (`_line_breaks_inside_literals`): the statement keeps
+      the number of its first physical line, the following lines are numbered after all of them -/
+  inner : Nat
   deriving Repr, DecidableEq, Inhabited
 
 structure Attr where
@@ -147,10 +150,12 @@ structure St where
   comment : String
   header : Bool
   deprecated : Bool
+  /-- `_last_attribute_line_number`: the line of the attribute statement that awaits its doc comment (0 = none yet) -/
+  lastAttrLine : Nat
   w : W
   deriving Repr, Inhabited
 
-def St.init (w : W) : St := ⟨[], Schema.empty, none, "", true, false, w⟩
+def St.init (w : W) : St := ⟨[], Schema.empty, none, "", true, false, 0, w⟩
 
 def raise {α : Type} (c : Ctx) (s : St) (line : Option Nat) : M α := .error (⟨c.self, line⟩, s.w)
 
@@ -164,27 +169,30 @@ def cleanComment (t : String) : String :=
 def St.addComment (s : St) (t : String) : St :=
   { s with comment := (if s.comment ≠ "" then s.comment ++ "\n" else "") ++ cleanComment t }
 
-/-- the queued callback: `self._structs[-1].add_field(Field(...))` / `add_constant(Constant(...))` -/
-def commitAttr (c : Ctx) (k : Nat) (s : St) (a : Attr) (bad : Bool) (doc : String) : M St :=
-  if bad then raise c s (some k)
+/-- the queued callback: `self._structs[-1].add_field(Field(...))` / `add_constant(Constant(...))`; an error leaves
+    with the line `el` -/
+def commitAttr (c : Ctx) (el : Nat) (s : St) (a : Attr) (bad : Bool) (doc : String) : M St :=
+  if bad then raise c s (some el)
   else match a.core.kind with
     | .const => .ok { s with cur := { s.cur with consts := s.cur.consts ++ [{ a with doc := doc }] }, pending := none }
     | _ =>
-      if s.cur.union && s.cur.offsetUsed then raise c s (some k)
+      if s.cur.union && s.cur.offsetUsed then raise c s (some el)
       else .ok { s with cur := { s.cur with fields := s.cur.fields ++ [{ a with doc := doc }] }, pending := none }
 
 /-- `_flush_attribute(comment)` -/
-def flushAttr (c : Ctx) (k : Nat) (s : St) (doc : String) : M St :=
+def flushAttr (c : Ctx) (el : Nat) (s : St) (doc : String) : M St :=
   match s.pending with
   | none => .ok s
-  | some (a, bad) => commitAttr c k s a bad doc
+  | some (a, bad) => commitAttr c el s a bad doc
 
-/-- `_flush_comment` -/
+/-- `_flush_comment` on line `k`.  An error raised while the queued attribute is committed belongs to the line of that
+    attribute statement (`_last_attribute_line_number or None`; without one, `parse` injects the current line). -/
 def flush (c : Ctx) (k : Nat) (s : St) : M St :=
   if s.header then
     .ok { s with cur := { s.cur with doc := s.comment }, header := false, comment := "" }
   else
-    (flushAttr c k s s.comment).map fun s' => { s' with header := false, comment := "" }
+    (flushAttr c (if s.lastAttrLine = 0 then k else s.lastAttrLine) s s.comment).map
+      fun s' => { s' with header := false, comment := "" }
 
 def Schema.attrNames (sc : Schema) : List String :=
   ((sc.fields ++ sc.consts).filter fun a => a.core.kind != .padding).map (·.core.name)
@@ -196,15 +204,15 @@ def resolveRefs (c : Ctx) (k : Nat) (s : St) : List String → M St
   | [] => .ok s
   | r :: rs => if (s.cur.consts.any fun a => a.core.name == r) then resolveRefs c k s rs else raise c s (some k)
 
-/-- `resolve_versioned_data_type` for every referenced definition; an error that already has a line keeps it,
-    otherwise `parse` injects the current line (`set_error_location_if_unknown`) -/
+/-- `resolve_versioned_data_type` for every referenced definition; the error of a referenced definition carries that
+    definition's path, so `parse` attaches no line of this text to it (`if ex.path is None`): it passes unchanged -/
 def readDeps (c : Ctx) (k : Nat) (s : St) : List Nat → M St
   | [] => .ok s
   | j :: js =>
     if c.ndefs ≤ j then raise c s (some k)
     else match c.depRead s.w j with
       | (w', none) => readDeps c k { s with w := w' } js
-      | (w', some e) => .error (⟨e.file, some (e.line.getD k)⟩, w')
+      | (w', some e) => .error (e, w')
 
 /-- `DataTypeBuilder.on_directive` and its handlers -/
 def onDirective (c : Ctx) (k : Nat) (s : St) (name : String) (e : Option EVal) (text : String) : M St :=
@@ -234,10 +242,11 @@ def Mode.isExtent : Option Mode → Bool
   | some (.extent _) => true
   | _ => false
 
-/-- `on_field` / `on_constant` / `on_padding_field`: `_on_attribute`, then `_queue_attribute` -/
+/-- `on_field` / `on_constant` / `on_padding_field`: `_on_attribute`, then `_queue_attribute`; back in the statement
+    visitor `_last_attribute_line_number` is set -/
 def onAttr (c : Ctx) (k : Nat) (s : St) (core : Core) (bad : Bool) : M St :=
   if Mode.isExtent s.cur.mode then raise c s (some k)
-  else (flushAttr c k s "").map fun s' => { s' with pending := some (⟨core, "", k⟩, bad) }
+  else (flushAttr c k s "").map fun s' => { s' with pending := some (⟨core, "", k⟩, bad), lastAttrLine := k }
 
 /-- `visit_statement_service_response_marker` (after its flush) and `on_service_response_marker` -/
 def onMarker (c : Ctx) (k : Nat) (s : St) : M St :=
@@ -287,10 +296,19 @@ def stepLine (c : Ctx) (k : Nat) (s : St) (l : Line) : M St :=
     | none => .ok s) >>= fun s1 =>
   if l.textEmpty then flush c k (addLineComment l s1) else .ok (addLineComment l s1)
 
-/-- all lines; `k` is the number of the first of them (`visit_end_of_line` increments between lines) -/
+/-- the number of the line that follows line `l` with number `k` (`visit_end_of_line`) -/
+def Line.next (l : Line) (k : Nat) : Nat := k + 1 + l.inner
+
+/-- all lines; `k` is the number of the first of them -/
 def runLines (c : Ctx) : Nat → St → List Line → M St
   | _, s, [] => .ok s
-  | k, s, l :: ls => stepLine c k s l >>= fun s' => runLines c (k + 1) s' ls
+  | k, s, l :: ls => stepLine c k s l >>= fun s' => runLines c (l.next k) s' ls
+
+/-- the number of the last line (`current_line_number` when the tree has been visited) -/
+def lastLine : Nat → List Line → Nat
+  | k, [] => k
+  | k, [_] => k
+  | k, l :: l' :: ls => lastLine (l.next k) (l' :: ls)
 
 def Schema.namesDistinct (sc : Schema) : Bool := sc.attrNames.Nodup
 
@@ -308,7 +326,7 @@ def finalize (c : Ctx) (s : St) : M Composite :=
 
 def firstSyntaxError : Nat → List Line → Option Nat
   | _, [] => none
-  | k, l :: ls => if l.fault = some .syn then some k else firstSyntaxError (k + 1) ls
+  | k, l :: ls => if l.fault = some .syn then some k else firstSyntaxError (l.next k) ls
 
 /-- `_parser.parse` followed by `finalize`, as `DSDLDefinition.read` does it.  The last flush happens with the
     line counter at the last line. -/
@@ -317,7 +335,7 @@ def readText (c : Ctx) (ls : List Line) (w : W) : M (Composite × W) :=
   | some k => .error (⟨c.self, some k⟩, w)
   | none =>
     runLines c 1 (St.init w) ls >>= fun s =>
-    flush c (max 1 ls.length) s >>= fun s' =>
+    flush c (lastLine 1 ls) s >>= fun s' =>
     (finalize c s').map fun comp => (comp, s'.w)
 
 structure Def where
@@ -326,9 +344,10 @@ structure Def where
   deriving Repr, Inhabited
 
 /-- `DSDLDefinition.read` of a lookup-list object: cache hit, or parse and cache.  `fuel` bounds the depth of
-    the reference chain (references are acyclic in every generated namespace). -/
+    the reference chain (references are acyclic in every generated namespace; running out of fuel is reported with the
+    out-of-range path `defs.length`). -/
 def readDef : Nat → List Def → Nat → DepRead
-  | 0, _, _, w, i => (w, some ⟨i, none⟩)
+  | 0, defs, _, w, _ => (w, some ⟨defs.length, none⟩)
   | fuel + 1, defs, pf, w, i =>
     if (w.cached.any fun p => p.1 == i) then (w, none)
     else match defs[i]? with
